@@ -82,12 +82,15 @@ fn read_step<const N: usize, const B: usize>() {
 	if cr.source.errs == 1 { assert!(r.is_err(), "a source error is never swallowed"); }
 }
 
+// (read does not call read_to_end today; the stub keeps the harness decidable if a change makes it do so)
 #[kani::proof]
 #[kani::unwind(6)]
+#[kani::stub(std::io::default_read_to_end, read_to_end_contract)]
 fn cap_read_step() { read_step::<4, 3>(); }
 
 #[kani::proof]
 #[kani::unwind(8)]
+#[kani::stub(std::io::default_read_to_end, read_to_end_contract)]
 fn cap_read_step_big() { read_step::<6, 4>(); }
 
 #[kani::proof]
